@@ -139,3 +139,39 @@ def left_end_derivative(s, k, iv_pow, X0, X1):
     for j in range(2, k + 1):
         f *= j
     return Fraction(f) * c[k]
+
+
+# ---------------------------------------------------------------------------------------------------------------------
+# Cubic piece from its end values and end second derivatives ("moments"), from first principles: p(0) = P0, p(h) = P1,
+# p''(0) = M0, p''(h) = M1.  In normalised time the coefficients a_m = c_m h^m are rational-linear in (P0, P1, h^2 M0, h^2 M1).
+# ---------------------------------------------------------------------------------------------------------------------
+_MOMENT = []
+
+
+def moment_matrix():
+    if _MOMENT:
+        return _MOMENT[0]
+    # unknown a0..a3; rows: a0 = w0 ; a0+a1+a2+a3 = w1 ; 2 a2 = w2 ; 2 a2 + 6 a3 = w3
+    M = [[1, 0, 0, 0], [1, 1, 1, 1], [0, 0, 2, 0], [0, 0, 2, 6]]
+    B = [[1, 0, 0, 0], [0, 1, 0, 0], [0, 0, 1, 0], [0, 0, 0, 1]]
+    A = _solve(M, B)
+    _MOMENT.append(A)
+    return A
+
+
+def moment_coeffs(h, iv, P0, P1, M0, M1):
+    """c_0..c_3 as polynomials in h and iv = 1/h:  c_m = a_m / h^m with a = A (P0, P1, h^2 M0, h^2 M1)"""
+    A = moment_matrix()
+    out = []
+    for m in range(4):
+        terms = []
+        for j, x in enumerate((P0, P1, M0, M1)):
+            if A[m][j] == 0:
+                continue
+            if j < 2:
+                mono = power(iv, m)
+            else:
+                mono = power(h, 2 - m) if m <= 2 else power(iv, m - 2)
+            terms.append(A[m][j] * mono * x)
+        out.append(esum(terms))
+    return out
